@@ -104,6 +104,8 @@ pub open spec fn rc_view(v: &Rc<Vector>) -> Seq<VCell> { vector_view(**v) }
 pub open spec fn heap_extended(h: crate::vm::heap::Heap, h2: crate::vm::heap::Heap) -> bool {
     forall|c: VCell| #[trigger] heap_live(h, c) ==> heap_live(h2, c) && heap_deref(h2, c) == heap_deref(h, c)
 }
+/// address comparison of two references (used by vector-copy! to detect that source and destination are one vector)
+pub assume_specification<T: ?Sized, A: core::alloc::Allocator> [std::rc::Rc::<T, A>::ptr_eq] (a: &std::rc::Rc<T, A>, b: &std::rc::Rc<T, A>) -> (r: bool);
 pub uninterp spec fn into_vec<T>(x: T) -> Seq<VCell>;
 #[verifier::external_body]
 pub proof fn axiom_into_vec() ensures forall|x: Vec<VCell>| #[trigger] into_vec::<Vec<VCell>>(x) == x@ {}
@@ -168,8 +170,11 @@ UNITS = [
                 'ensures': [
                     # with a start index only (the optional end is excluded by the property): a fresh vector holding view[start..]
                     (['C14'], '''r matches Ok(x) ==> (arg(*old(vm), 0) == VCell::ArgumentCount(2) ==> (cell_index(old(vm).heap_spec(), arg(*old(vm), 1)) matches Some(s)
-                        && (cell_vector(old(vm).heap_spec(), arg(*old(vm), 2)) matches Some(v) && s < vlen(v)
+                        && (cell_vector(old(vm).heap_spec(), arg(*old(vm), 2)) matches Some(v) && s <= vlen(v)
                         && (x matches VCell::Vector(nv) && vector_view(*nv) == vector_view(*v).subrange(s as int, vlen(v))))))'''),
+                    # R7RS: every start with 0 <= start <= length is valid (start = length gives the empty vector): never refused
+                    (['C14'], '''(arg(*old(vm), 0) == VCell::ArgumentCount(2) && has_args(*old(vm), 3)
+                        && (cell_index(old(vm).heap_spec(), arg(*old(vm), 1)) matches Some(s) && cell_vector(old(vm).heap_spec(), arg(*old(vm), 2)) matches Some(v) && s <= vlen(v))) ==> r is Ok'''),
                 ],
                 'body_start': 'proof { axiom_into_vec(); }',
             },
@@ -197,11 +202,22 @@ UNITS = [
                         && (vc_to(*old(vm), n as int) matches Some(to) && vc_at(*old(vm), n as int) matches Some(at) && vc_from(*old(vm), n as int) matches Some(from)
                             && vc_start(*old(vm), n as int) matches Some(start) && vc_end(*old(vm), n as int, from) matches Some(end)
                             && vector_copied(to, at as int, from, start as int, end as int)))'''),
+                    # R7RS: every 0 <= start <= end <= (length from) with (length to) - at >= end - start is valid, including the empty
+                    # copies with start = (length from) or at = (length to): never refused
+                    (['C14'], '''(arg(*old(vm), 0) matches VCell::ArgumentCount(n) && 3 <= n <= 5 && has_args(*old(vm), n as int + 1)
+                        && (vc_to(*old(vm), n as int) matches Some(to) && vc_at(*old(vm), n as int) matches Some(at) && vc_from(*old(vm), n as int) matches Some(from)
+                            && vc_start(*old(vm), n as int) matches Some(start) && vc_end(*old(vm), n as int, from) matches Some(end)
+                            && start <= end && end <= vlen(from) && at + (end - start) <= vlen(to))) ==> r is Ok'''),
                 ],
+                # two loops since the overlap fix: backwards when source and destination are one vector and the destination lies higher
+                'loop_iter': {0: 'itb'},
                 'loops': {0: '''invariant
                         start <= end <= vector_view(*from_vector).len(), at + (end - start) <= vector_view(*to_vector).len(), vector_view(*to_vector).len() <= usize::MAX,
+                        forall|j: int| end - itb.index@ <= j < end ==> #[trigger] vector_written(*to_vector, at + (j - start), vector_view(*from_vector)[j]),''',
+                    1: '''invariant
+                        start <= end <= vector_view(*from_vector).len(), at + (end - start) <= vector_view(*to_vector).len(), vector_view(*to_vector).len() <= usize::MAX,
                         forall|j: int| start <= j < i ==> #[trigger] vector_written(*to_vector, at + (j - start), vector_view(*from_vector)[j]),'''},
-                'loop_count': 1,
+                'loop_count': 2,
             },
             '::make_vector': {
                 'props': T, 'requires': POP_REQ,
@@ -247,6 +263,8 @@ UNITS = [
                     # element j of the new vector is the very object in the car of the j-th pair (a pointer to it), not a copy
                     (['C14'], '''r matches Ok(x) ==> (x matches VCell::Vector(nv) && (forall|j: int| 0 <= j < vlen(nv) ==>
                         (#[trigger] list_cell(old(vm).heap_spec(), heap_deref(old(vm).heap_spec(), arg(*old(vm), 1)), j as nat) matches VCell::Pair(a, d) && vector_view(*nv)[j] == VCell::Ptr(a))))'''),
+                    # ... and that is the whole list: after these pairs comes (), an improper list is an error and not a shorter vector
+                    (['C14'], '''r matches Ok(x) ==> (x matches VCell::Vector(nv) && list_cell(old(vm).heap_spec(), heap_deref(old(vm).heap_spec(), arg(*old(vm), 1)), vlen(nv) as nat) is Nil)'''),
                 ],
                 'body_start': 'proof { axiom_into_vec(); if old(vm).stack_spec().sp_spec() > 1 { axiom_cow_cell_ref(&arg(*old(vm), 1)); } }',
                 'loops': {0: '''invariant
